@@ -1,7 +1,7 @@
 (* Proofs/ScPermSim.v — C08 WITH scoped variables, part 5: SHIFT EQUIVARIANCE of the execution of one block on the
    fragment `sstmt`: everything of `fstmt` (Proofs/SLExpr.v) plus
      - definitions of scoped variables  `let @cap.name = e`, `node @cap.name`  (scope = a capture, value scoped-free),
-     - scoped reads `@cap.name` in DEFERRED positions: node / source / sink of attr and edge statements, attribute
+     - scoped reads `@(scope).name` (scope: any expression of the fragment, or again a scoped read) in DEFERRED positions: node / source / sink of attr and edge statements, attribute
        values (of attributes that are not shorthands), print arguments; possibly inside list literals.
    The two-run relation R' extends the relation R of Proofs/BlockPermSim.v: the deferred statements may contain scoped
    reads (`mvall`), and the scoped cells of the two runs are their (arbitrary, unforced) start values with the SAME
@@ -43,7 +43,7 @@ Section Frag2.
   Fixpoint mexpr (e : expr) : Prop :=
     fexpr okfn m e \/
     match e with
-    | EScoped sc _ _ => is_capture sc /\ fexpr okfn m sc
+    | EScoped sc _ _ => mexpr sc
     | EList es => All mexpr es
     | _ => False
     end.
@@ -69,7 +69,7 @@ End Frag2.
 Fixpoint mvall (okfn : ident -> Prop) (D L : N -> Prop) (lv : lvalue) : Prop :=
   lvall okfn D L lv \/
   match lv with
-  | LScoped sc _ => exists v, sc = LValue v /\ vall noid v
+  | LScoped sc _ => mvall okfn D L sc
   | LList ls => (fix all (l : list lvalue) : Prop := match l with [] => True | x :: l' => mvall okfn D L x /\ all l' end) ls
   | _ => False
   end.
@@ -86,14 +86,14 @@ Lemma mvall_impl okfn (D D' L L' : N -> Prop) lv : (forall i, D i -> D' i) -> (f
 Proof.
   intros HD HL. induction lv as [v|l IH|l IH|loc|sc name IH|f args IH] using lv_ind; cbn [mvall]; intros [H|H]; try (left; eapply lvall_impl; eauto; fail); try contradiction.
   - right. apply mvall_all in H. apply mvall_all. rewrite Forall_forall in *. intros x Hx. apply IH; auto.
-  - right. exact H.
+  - right. apply IH, H.
 Qed.
 Lemma mvall_ext okfn (D L : N -> Prop) rg rg' rl rl' lv : (forall i, D i -> rg i = rg' i) -> (forall i, L i -> rl i = rl' i) ->
   mvall okfn D L lv -> lvren rg rl lv = lvren rg' rl' lv.
 Proof.
   intros HD HL. induction lv as [v|l IH|l IH|loc|sc name IH|f args IH] using lv_ind; cbn [mvall]; intros [H|H]; try (eapply lvren_ext; eauto; fail); try contradiction.
   - apply mvall_all in H. cbn [lvren]. f_equal. apply map_ext_in. intros x Hx. rewrite Forall_forall in *. apply IH; auto.
-  - destruct H as (v & -> & Hv). cbn [lvren]. rewrite !(vren_noid _ v Hv). reflexivity.
+  - cbn [lvren]. f_equal. apply IH, H.
 Qed.
 
 Definition matall (okfn : ident -> Prop) (D L : N -> Prop) (a : ident * lvalue) : Prop := mvall okfn D L (snd a).
@@ -442,8 +442,9 @@ Section Shift2.
       - cbn [leval]. eapply bsim'_bind; [apply bsim'_mapM_same; [apply PMV_mono|]; intros x n1 m1 _ _ Hin; apply IH; eapply All_In; eauto|].
         intros vs vs' n1 m1 _ _ Hvs. apply PL_PMV in Hvs. destruct Hvs as [-> Hall]. apply bsim'_ret. intros n2 m2 Hn2 Hm2. split; [reflexivity|].
         cbn [mvall]. right. apply mvall_all. eapply Forall_impl; [|exact Hall]. intros lv. apply mvall_impl; [intros i; apply Dn_mono', Hn2|intros i; apply Lm_mono', Hm2].
-      - destruct Hm as [Hcap _]. cbn [leval]. eapply bsim'_bind; [apply bsim'_capture, Hcap|]. intros sv sv' n1 m1 _ _ (-> & v & -> & Hv).
-        apply bsim'_ret. intros n2 m2 _ _. split; [cbn [lvren]; rewrite (vren_noid _ v Hv); reflexivity|]. cbn [mvall]. right. eauto.
+      - cbn [leval]. eapply bsim'_bind; [apply IH, Hm|]. intros sv sv' n1 m1 _ _ [-> Hsv].
+        apply bsim'_ret. intros n2 m2 Hn2 Hm2. split; [reflexivity|]. cbn [mvall]. right.
+        eapply mvall_impl; [| |exact Hsv]; [intros i; apply Dn_mono', Hn2|intros i; apply Lm_mono', Hm2].
     Qed.
 
     (* ---- attributes ---- *)
